@@ -101,6 +101,34 @@ pub fn run(ctx: &Ctx) {
         ctx.push("caps", json!(format!("wall budget: {} of {} single documents", res.processed, sp.len())));
     }
     }
+    // deep nesting (depth 1..=120), singly and extended with itself
+    let chains = deep_chain_docs(120);
+    let found = std::sync::atomic::AtomicBool::new(false);
+    let res = par_for(
+        chains.len() as u64,
+        ctx.threads,
+        4,
+        Some(ctx.deadline),
+        |_| 0u64,
+        |acc, i| {
+            if found.load(std::sync::atomic::Ordering::Relaxed) {
+                return; // ascending depth: deeper chains add nothing once a violation is known
+            }
+            let d = &chains[i as usize];
+            for h in [vec![d], vec![d, d]] {
+                if let Ok(el) = run_history(&h) {
+                    let vs = judge(&h, &el, (1 << 52) | i);
+                    if !vs.is_empty() {
+                        found.store(true, std::sync::atomic::Ordering::Relaxed);
+                    }
+                    ctx.report_all(vs);
+                    *acc += 1;
+                }
+            }
+        },
+    );
+    total_evals += res.accs.iter().sum::<u64>();
+    ctx.set("deep_chains", json!({"max_depth": 120, "documents": chains.len()}));
     ctx.set("evaluations", json!(total_evals));
     ctx.set("distinct_nontrivial", json!(all_distinct.len()));
     let searches: Vec<(usize, usize)> = ctx.tier.pick(vec![(2, 4), (3, 1)], vec![(2, 8), (3, 3)]);
